@@ -32,6 +32,16 @@ Oracle (every clause of the statement):
     the public material (EC mirrored point, RSA same n / other e, Ed25519 one bit, ...) is unequal - also when it is built so that hash() of each of its numbers EQUALS that of the key's
     (RSA e and/or n shifted by an even multiple of sys.hash_info.modulus: CPython hashes an int to its value modulo
     2**61 - 1, so the field tuples collide) -, is not found in a dict keyed by the key, and its own object forms are equal among themselves: a == b <=> public blobs equal;
+ b". certificates (round 4): ONE key pair under 2-3 DIFFERENT OpenSSH certificates (serial, user / host type, key id,
+    principals, validity, extensions, CA key of another type, nonce), built without paramiko by cryptography's
+    SSHCertificateBuilder or by the harness' own encoder (PROTOCOL.certkeys layout, refssh encoders). Objects of the key:
+    bare public, the case's object, a NEW private object per certificate given it through load_certificate (text line /
+    file / Message) or PKey.from_path (key file with <name>-cert.pub next to it), and a public-only object parsed from
+    each certificate blob (data= / msg= / from_type_string). Equality must depend on the PUBLIC KEY MATERIAL only - the
+    key's own numbers / point / bytes, i.e. asbytes() - not on whether a certificate is carried nor on which one: every
+    pair of these objects is ==, not !=, hash-equal, they fill one set slot and find one another in lists / dicts; and
+    an object of OTHER material (the other key, the near key) is unequal to all of them also when it carries a
+    certificate with the same fields, or - load_certificate only looks at the type name - this key's very certificate;
  c'. histories on one path: 2-3 key files written over each other (other key, other class, passphrase added /
     removed / changed; paramiko's writer or the harness, in place or by rename), each loaded back immediately by
     file name - the load must give the key just written, and respect the passphrase just set;
@@ -76,8 +86,13 @@ RULE = (
     "key / the other key / the near key, which may be of another class; passphrase none or one of four; written by "
     "write_private_key_file, or by the harness in place / by rename), every step loaded back at once through "
     "from_private_key_file, Class(filename=), PKey.from_path, with the per-load oracle unchanged (that key, signing-capable, "
-    "refused without / with a wrong passphrase); non-trivial = passphrase-protected (written or obtained from encrypted text) or "
-    "certificate-bearing or umask != 0o077; "
+    "refused without / with a wrong passphrase); in about every second case the key under 2-3 DIFFERENT certificates (fields drawn: serial, type, key id, "
+    "principals, validity, extensions, CA = one of 7 pool keys of all three types, nonce length; encoder = cryptography SSHCertificateBuilder | the harness' own "
+    "PROTOCOL.certkeys encoder; attached to a new private object by load_certificate(line | file | Message) | PKey.from_path with a -cert.pub file; parsed as "
+    "public-only object by data= | msg= | from_type_string): all objects of the key pairwise equal / hash-equal / one set slot, objects of other material "
+    "(other key, near key) carrying a certificate with the same fields or this key's very certificate unequal; "
+    "non-trivial = passphrase-protected (written or obtained from encrypted text) or "
+    "certificate-bearing (bundled certificate or generated ones) or umask != 0o077; "
     "distinct by SHA-1 of the case"
 )
 CERTS = {"t:rsa": "rsa.key-cert.pub", "t:ed25519": "ed25519.key-cert.pub", "t:ecdsa-256": "ecdsa-256.key-cert.pub"}
@@ -162,8 +177,13 @@ def prov_text(keyid, prov):
 
 def get_obj(keyid, prov):
     k = (_kid(keyid), prov)
-    if k in _cache:
-        return _cache[k]
+    if k not in _cache:
+        _cache[k] = make_obj(keyid, prov)
+    return _cache[k]
+
+
+def make_obj(keyid, prov):
+    """A NEW paramiko object of the key (never shared: callers may attach certificates to it)."""
     import paramiko
 
     cls = getattr(paramiko, key_class(keyid))
@@ -184,7 +204,6 @@ def get_obj(keyid, prov):
         obj = cls.from_private_key(io.StringIO(prov_text(keyid, prov)), ENC_PROV_PASS)
     else:
         raise AssertionError(prov)
-    _cache[k] = obj
     return obj
 
 
@@ -347,6 +366,8 @@ def cases(draw, fixed_key=None):
         "umask": draw(st.sampled_from([0, 0o022, 0o077])),
         "other": other,
         "oprov": draw(st.sampled_from(provs_for(other))),
+        # the key under 2-3 different certificates (about every second case; [] = none)
+        "certs": draw(st.one_of(st.just([]), st.lists(cert_spec, min_size=2, max_size=3))),
     }
 
 
@@ -514,6 +535,295 @@ def check_near(ctx, cls_name, k, ref, prov, nk):
     ctx.count("near-compared:" + nk["kind"])
 
 
+# ----------------------------------------------------------------------------- certificates
+# One key pair under SEVERAL different OpenSSH certificates (a renewed certificate: other serial / key id / validity /
+# principals / CA / type), each built without paramiko: by cryptography's SSHCertificateBuilder, or by the harness'
+# own encoder (PROTOCOL.certkeys layout through the refssh encoders, signature made with `cryptography`).
+
+CERT_SUFFIX = "-cert-v01@openssh.com"
+CERT_CAS = ["ed25519", "ed25519b", "ecdsa256", "ecdsa384", "ecdsa521", "rsa1024", "rsa2048"]
+CERT_ATTACH = ["string", "file", "message", "from_path"]
+cert_spec = st.fixed_dictionaries(
+    {
+        "enc": st.sampled_from(["builder", "harness"]),
+        "serial": st.one_of(st.sampled_from([0, 1, 2, (1 << 64) - 1]), st.integers(0, (1 << 64) - 1)),
+        "type": st.sampled_from([1, 1, 2]),
+        "key_id": st.sampled_from(["", "verif", "renewed 2026-09", "kéy-id", "x" * 300]),
+        "principals": st.lists(st.sampled_from(["alice", "bob", "root", "host.example.org"]), max_size=3, unique=True),
+        "after": st.sampled_from([0, 1, 1700000000]),
+        "span": st.sampled_from([1, 86400, (1 << 64) - 1]),
+        "ca": st.sampled_from(CERT_CAS),
+        "nonce": st.sampled_from([0, 16, 32, 64]),
+        "ext": st.sampled_from([[], ["permit-pty"], ["permit-X11-forwarding", "permit-pty", "permit-user-rc"]]),
+        "attach": st.sampled_from(CERT_ATTACH),
+        "pubvia": st.sampled_from(["data", "msg", "type_string"]),
+    }
+)
+
+
+def _ca_private(name):
+    k = ("ca", name)
+    if k not in _cache:
+        _cache[k] = KM.spec(name).ref_private()
+    return _cache[k]
+
+
+def _ssh_signature(priv, data):
+    """SSH signature blob over ``data`` made with `cryptography` only."""
+    from cryptography.hazmat.primitives import hashes
+    from cryptography.hazmat.primitives.asymmetric import ec, ed25519, padding, rsa
+    from cryptography.hazmat.primitives.asymmetric.utils import decode_dss_signature
+
+    from vlib import refssh as R
+
+    if isinstance(priv, ed25519.Ed25519PrivateKey):
+        return R.string(b"ssh-ed25519") + R.string(priv.sign(data))
+    if isinstance(priv, rsa.RSAPrivateKey):
+        return R.string(b"rsa-sha2-512") + R.string(priv.sign(data, padding.PKCS1v15(), hashes.SHA512()))
+    size = priv.curve.key_size
+    h = {256: hashes.SHA256, 384: hashes.SHA384, 521: hashes.SHA512}[size]
+    r, s_ = decode_dss_signature(priv.sign(data, ec.ECDSA(h())))
+    return R.string(b"ecdsa-sha2-nistp%d" % size) + R.string(R.mpint(r) + R.mpint(s_))
+
+
+def make_cert(blob, spec, idx):
+    """(certificate type name, certificate blob, encoder actually used) for the public key ``blob`` (plain SSH public
+    key bytes). Never touches paramiko."""
+    from vlib import refssh as R
+
+    rd = R.Reader(blob)
+    ktype = rd.string()
+    fields = blob[4 + len(ktype) :]
+    ctype = ktype.decode() + CERT_SUFFIX
+    ca = _ca_private(spec["ca"])
+    before = min(spec["after"] + spec["span"], (1 << 64) - 1)
+    if spec["enc"] == "builder":
+        from cryptography.hazmat.primitives.serialization import SSHCertificateBuilder, SSHCertificateType, load_ssh_public_key
+
+        try:
+            pub = load_ssh_public_key(ktype + b" " + base64.b64encode(blob))
+            b = SSHCertificateBuilder().public_key(pub).serial(spec["serial"]).key_id(spec["key_id"].encode())
+            b = b.type(SSHCertificateType.USER if spec["type"] == 1 else SSHCertificateType.HOST)
+            b = b.valid_principals([p_.encode() for p_ in spec["principals"]]) if spec["principals"] else b.valid_for_all_principals()
+            b = b.valid_after(spec["after"]).valid_before(before)
+            for e in sorted(spec["ext"]):
+                b = b.add_extension(e.encode(), b"")
+            line = b.sign(ca).public_bytes()
+            return ctype, base64.b64decode(line.split()[1]), "builder"
+        except (ValueError, TypeError):
+            pass  # material `cryptography` does not take (near keys that only look like keys): the harness encoder does
+    nonce = hashlib.shake_256(b"c36-nonce:%d:" % idx + repr(sorted(spec.items())).encode()).digest(spec["nonce"])
+    body = R.string(ctype.encode()) + R.string(nonce) + fields
+    body += R.u64(spec["serial"]) + R.u32(spec["type"]) + R.string(spec["key_id"].encode())
+    body += R.string(b"".join(R.string(p_.encode()) for p_ in spec["principals"]))
+    body += R.u64(spec["after"]) + R.u64(before)
+    body += R.string(b"") + R.string(b"".join(R.string(e.encode()) + R.string(b"") for e in sorted(spec["ext"]))) + R.string(b"")
+    body += R.string(K.RefPub.from_crypto(ca.public_key()).blob())
+    return ctype, body + R.string(_ssh_signature(ca, body)), "harness"
+
+
+def _cert_line(ctype, cblob, comment="c36 certificate"):
+    return "%s %s %s" % (ctype, base64.b64encode(cblob).decode(), comment)
+
+
+def _attach(ctx, obj, how, ctype, cblob, tag):
+    """Give the private object ``obj`` the certificate through one of load_certificate's documented inputs."""
+    from paramiko.message import Message
+
+    if how == "message":
+        obj.load_certificate(Message(cblob))
+    elif how == "file":
+        path = os.path.join(K.fast_tmpdir(ctx), "cert-%d-%s-cert.pub" % (ctx.evaluations, tag))
+        with open(path, "w") as f:
+            f.write(_cert_line(ctype, cblob) + "\n")
+        try:
+            obj.load_certificate(path)
+        finally:
+            os.unlink(path)
+    else:
+        obj.load_certificate(_cert_line(ctype, cblob))
+    return obj
+
+
+def _private_text(keyid, idx):
+    """(private key file text, passphrase) of the key, for PKey.from_path; None when there is no cheap one."""
+    if isinstance(keyid, str):
+        sp = KM.spec(keyid)
+        if sp.password:
+            return None  # (from_path derives the key inside `cryptography`: bcrypt there cannot be memoised)
+        return sp.text, None
+    return prov_text(keyid, ["pem-text", "openssh-text"][idx % 2]), None
+
+
+def private_with_cert(ctx, c, cls_name, keyid, prov, how, ctype, cblob, tag):
+    """A new private-key object of ``keyid`` carrying the certificate -> (how it was really made, object)."""
+    import paramiko
+
+    if how == "from_path":
+        text = _private_text(keyid, len(tag))
+        if text is None:
+            how = "file"
+        else:
+            path = os.path.join(K.fast_tmpdir(ctx), "id-%d-%s" % (ctx.evaluations, tag))
+            with open(path, "w") as f:
+                f.write(text[0])
+            with open(path + "-cert.pub", "w") as f:
+                f.write(_cert_line(ctype, cblob) + "\n")
+            try:
+                return how, paramiko.PKey.from_path(path)
+            except Exception as e:
+                if K.exc_bucket(e).endswith("@outside-paramiko"):
+                    raise
+                raise Fail("private-load", "%s:from_path+cert:%s" % (cls_name, K.exc_bucket(e)), "PKey.from_path does not load a valid key file with a certificate next to it: %r" % (e,))
+            finally:
+                os.unlink(path)
+                os.unlink(path + "-cert.pub")
+    if prov == "file+cert":
+        prov = "file"
+    try:
+        obj = make_obj(keyid, prov)
+    except Exception as e:
+        if prov == "object" or K.exc_bucket(e).endswith("@outside-paramiko"):
+            raise
+        raise Fail("private-load", "%s:%s:%s" % (cls_name, prov, K.exc_bucket(e)), "valid key text (%s) does not load: %r" % (prov, e))
+    try:
+        return how, _attach(ctx, obj, how, ctype, cblob, tag)
+    except Exception as e:
+        if K.exc_bucket(e).endswith("@outside-paramiko"):
+            raise
+        raise Fail("certificate-load", "%s:%s:%s" % (cls_name, how, K.exc_bucket(e)), "load_certificate refuses a well-formed certificate of the key's own type (%s): %r" % (ctype, e))
+
+
+def public_from_cert(cls_name, via, ctype, cblob):
+    """Public-only object parsed from the certificate blob -> (how, object) / None when that entry point does not
+    know certificate types (nothing is asserted then)."""
+    import paramiko
+    from paramiko.message import Message
+
+    cls = getattr(paramiko, cls_name)
+    try:
+        if via == "type_string":
+            try:
+                return via, paramiko.PKey.from_type_string(ctype, cblob)
+            except getattr(paramiko.pkey, "UnknownKeyType", ()):
+                via = "data"  # from_type_string does not know certificate type names of this class: nothing asserted
+        if via == "msg":
+            return via, cls(msg=Message(cblob))
+        return via, cls(data=cblob)
+    except Exception as e:
+        if K.exc_bucket(e).endswith("@outside-paramiko"):
+            raise
+        raise Fail("public-roundtrip", "%s:certificate-%s:%s" % (cls_name, via, K.exc_bucket(e)), "a well-formed public key / certificate blob (%s) does not parse: %r" % (ctype, e))
+
+
+def _carries(obj, cblob):
+    """Does the object really carry that certificate (observation only; None = cannot tell)?"""
+    pb = getattr(obj, "public_blob", None)
+    kb = getattr(pb, "key_blob", None)
+    return None if kb is None else kb == cblob
+
+
+def _kind(label):
+    return label.split(":", 1)[0]
+
+
+def check_certificates(ctx, c, cls_name, k, ref):
+    """Clause b over certificate-bearing objects: every object of ONE key pair - bare, private, private carrying
+    certificate 0 / 1 / 2, public-only parsed from each certificate blob - equals every other and hashes alike (the
+    certificate is not public key material); an object of OTHER material is unequal to all of them, also when it
+    carries a certificate with the same fields, or this key's very certificate."""
+    import paramiko
+
+    cls = getattr(paramiko, cls_name)
+    blob = ref.blob()
+    certs = []
+    for i, cs in enumerate(c["certs"]):
+        ctype, cblob, enc = make_cert(blob, cs, i)
+        if any(cblob == x[1] for x in certs):
+            ctx.count("cert-duplicate-skipped")
+            continue
+        certs.append((ctype, cblob, enc, cs, i))
+    views = [("bare", public_from_cert(cls_name, "data", ref.name, blob)[1], None), ("key:" + c["prov"], k, -1 if c["prov"] == "file+cert" else None)]  # (label, object, index of its certificate; -1 = the bundled one)
+    provs = [p_ for p_ in provs_for(c["key"]) if p_ != "file+cert"]
+    for ctype, cblob, enc, cs, i in certs:
+        prov = c["prov"] if i == 0 else provs[(i + cs["serial"]) % len(provs)]
+        how, kp = private_with_cert(ctx, c, cls_name, c["key"], prov, cs["attach"], ctype, cblob, "k%d" % i)
+        views.append(("priv+cert:%d:%s:%s" % (i, enc, how), kp, i))
+        ctx.count("cert-attached:" + how)
+        ctx.count("cert-built-by:" + enc)
+        got = public_from_cert(cls_name, cs["pubvia"], ctype, cblob)
+        views.append(("pub(cert):%d:%s:%s" % (i, enc, got[0]), got[1], i))
+        for label, v, _ in views[-2:]:
+            carries = _carries(v, cblob)
+            if carries is False:
+                raise Fail("certificate-load", "%s:%s:other-certificate" % (cls_name, _kind(label)), "%s carries another certificate than the one it was given" % label)
+            ctx.count("cert-view-carries-its-certificate" if carries else "cert-view-certificate-not-observable")
+            if v.asbytes() != blob or v.get_name() != ref.name:
+                raise Fail("public-encoding", "%s:%s" % (cls_name, _kind(label)), "asbytes() / get_name() of a certificate-bearing key are not those of the key (%s)" % label)
+        check_signs(cls_name, kp, ref, "priv+cert:" + how)
+        if got[1].can_sign():
+            raise Fail("public-roundtrip", "%s:certificate-%s:can-sign" % (cls_name, got[0]), "public-only object parsed from a certificate claims it can sign")
+    ncert = len(certs)
+    for i, (la, a, ca) in enumerate(views):
+        for lb, b, cb in views[i + 1 :]:
+            which = "%s-vs-%s" % (_kind(la), _kind(lb))
+            if ca is not None and cb is not None:
+                which += ":same-certificate" if ca == cb else ":different-certificates"
+            try:
+                eq = (a == b, b == a, a != b, b != a, hash(a), hash(b))
+            except Exception as e:
+                if K.exc_bucket(e).endswith("@outside-paramiko"):
+                    raise
+                raise Fail("equality", "%s:certs:%s:%s" % (cls_name, which, K.exc_bucket(e)), "comparing / hashing two objects of one key pair raises: %s vs %s: %r" % (la, lb, e))
+            if eq[:4] != (True, True, False, False):
+                raise Fail("equality", "%s:certs:%s" % (cls_name, which), "two objects of ONE key pair compare unequal: %s vs %s (== %r / %r, != %r); same public key bytes" % (la, lb, a == b, b == a, a != b))
+            if hash(a) != hash(b):
+                raise Fail("hash", "%s:certs:%s" % (cls_name, which), "two objects of ONE key pair hash differently: %s vs %s" % (la, lb))
+    objs = [v for _, v, _ in views]
+    if len(set(objs)) != 1 or len({v: 1 for v in reversed(objs)}) != 1:
+        raise Fail("hash", "%s:certs:set-of-views" % cls_name, "the %d objects of one key pair fill %d set slots" % (len(objs), len(set(objs))))
+    for la, a, _ in views:
+        if a not in objs[-1:] or objs[-1] not in {a: 1}:
+            raise Fail("equality", "%s:certs:lookup:%s" % (cls_name, _kind(la)), "%s is not found in a list / dict holding %s" % (views[-1][0], la))
+    ctx.count("cert-views-compared:%d-certificates" % ncert)
+    if ncert >= 2:
+        ctx.count("one-key-under-different-certificates")
+    # converse: other material stays another key, whatever certificate it carries
+    if not certs:
+        return
+    ctype, cblob, enc, cs, _ = certs[0]
+    nk = near_key(c["key"], c["near"][0], c["near"][1]) if "near" in c else None
+    others = []  # (label, plain blob, private maker or None)
+    if nk is not None:
+        others.append(("near:" + nk["kind"], nk["blob"], None))
+    oref = ref_public(c["other"])
+    if not oref.same(ref):
+        others.append(("other", oref.blob(), (lambda: make_obj(c["other"], c["oprov"] if c["oprov"] != "file+cert" else "file"))))
+    for label, oblob, mk in others:
+        ocls = key_class(c["other"]) if label == "other" else (cls_name if not nk["name"].startswith("ecdsa") else "ECDSAKey")
+        foreign = []
+        t2, cb2, _ = make_cert(oblob, dict(cs, enc="harness"), 0)  # the same certificate fields over the other material
+        try:
+            foreign.append(("pub(cert-of-%s)" % label, public_from_cert(ocls, "data", t2, cb2)[1]))
+        except Fail:
+            if label == "other" or nk["genuine"]:
+                raise
+            ctx.count("near-certificate-refused-by-paramiko:" + nk["kind"])
+        if mk is not None and t2 == ctype:
+            # another private key given THIS key's certificate (load_certificate only looks at the type name)
+            try:
+                foreign.append(("%s-priv+this-key's-cert" % label, _attach(ctx, mk(), "message", ctype, cblob, "o")))
+            except ValueError:
+                ctx.count("foreign-certificate-refused")
+        for lf, fo in foreign:
+            if fo.asbytes() != oblob:
+                raise Fail("public-encoding", "%s:foreign-cert:%s" % (ocls, lf.split(":")[0]), "asbytes() of %s is not the public key it was built from" % lf)
+            for la, a, _ in views:
+                if (a == fo) or (fo == a) or not (a != fo) or (fo in {a: 1}) or (fo in [a]):
+                    raise Fail("equality", "%s:certs:different-material:%s-vs-%s" % (cls_name, _kind(la), lf.split(":")[0]), "objects of different public key material compare equal: %s vs %s" % (la, lf))
+            ctx.count("cert-converse-compared:" + lf.split(":")[0].split("(")[0])
+
+
 # ----------------------------------------------------------------------------- oracle
 
 
@@ -609,13 +919,18 @@ def execute(ctx, c):
     sp = KM.spec(c["key"]) if isinstance(c["key"], str) else None
     writes = cls_name != "Ed25519Key"
     protected = bool(c["pass"]) if writes else bool(sp and sp.password)
-    nontrivial = protected or c["prov"] == "file+cert" or c["prov"] in ENC_PROVS or (writes and c["umask"] != 0o077)
+    nontrivial = protected or c["prov"] == "file+cert" or bool(c.get("certs")) or c["prov"] in ENC_PROVS or (writes and c["umask"] != 0o077)
     classes = ["cls:" + cls_name, "prov:" + c["prov"], "umask:%o" % c["umask"], "pre:%s" % ("new" if c["pre"] is None else "%o" % c["pre"])]
     classes += material_classes(c["key"])
     if "near" in c:
         classes.append("near:" + c["near"][0])
     if "history" in c:
         classes += history_classes(c)
+    if c.get("certs"):
+        classes.append("certs:%d-different-certificates-for-the-key" % len(c["certs"]))
+        classes += sorted(set(["cert-encoder:" + cs["enc"] for cs in c["certs"]] + ["cert-attach:" + cs["attach"] for cs in c["certs"]] + ["cert-ca:" + KM.spec(cs["ca"]).cls for cs in c["certs"]]))
+        if len(set(cs["enc"] for cs in c["certs"])) > 1:
+            classes.append("certs:both-encoders-in-one-case")
     if writes:
         classes += pass_classes(c["pass"])
         if c["pass"] and c["wrong"] in ("canonical", "compatible") and wrong_pass(c["pass"], c["wrong"]) != wrong_pass(c["pass"], "suffix"):
@@ -646,6 +961,9 @@ def execute(ctx, c):
         if same and hash(o) != hash(k):
             raise Fail("hash", "%s:same-material" % cls_name, "equal keys (different files) hash differently")
         ctx.count("other:" + ("same" if same else "different"))
+        # b over certificate-bearing objects: one key pair under several different certificates
+        if c.get("certs"):
+            check_certificates(ctx, c, cls_name, k, ref)
         # b, converse: keys that share part of the public material are different keys
         if "near" in c:
             nk = near_key(c["key"], c["near"][0], c["near"][1])
